@@ -478,7 +478,47 @@ func (c *gen) flabel() string {
 	if len(c.handled) > 0 && c.chance(85, "handledlabel") {
 		return Pick(c.t, c.handled, "flabelh")
 	}
-	return Pick(c.t, []string{"F1", "F2", "F3"}, "flabel")
+	return Pick(c.t, []string{"F1", "F2", "F3", "G1", "G2"}, "flabel")
+}
+
+// Failure labels come in two tiers so that recovery expressions may themselves throw and
+// contain recovery operators without ever forming a cycle (handlers are looked up
+// dynamically, so lexical scoping cannot rule cycles out): an operator lists either F labels
+// or G labels; the recovery expression of an F operator may throw G labels and may contain G
+// operators; the recovery expression of a G operator is free of throws.
+
+// richRec draws a recovery expression (for an F operator) that throws G labels or contains
+// a G operator.
+func (c *gen) richRec() (*Expr, bool) { return c.richRecFor("") }
+
+// richRecFor prefers the given G label (one that an operator in force lists).
+func (c *gen) richRecFor(prefer string) (*Expr, bool) {
+	g := func() string {
+		if prefer != "" && c.chance(60, "preferlabel") {
+			return prefer
+		}
+		return Pick(c.t, []string{"G1", "G2"}, "glabel")
+	}
+	switch c.intn(0, 4, "richk") {
+	case 0:
+		return &Expr{K: KThrow, Name: g()}, true
+	case 1:
+		return &Expr{K: KSeq, Sub: []*Expr{c.consuming(), {K: KThrow, Name: g()}}}, true
+	case 2:
+		// a G operator inside the recovery expression, its guarded expression throws
+		l := g()
+		rec, _ := c.recExpr()
+		return &Expr{K: KRecover, Labels: []string{l}, Sub: []*Expr{
+			{K: KSeq, Sub: []*Expr{c.consuming(), {K: KThrow, Name: Pick(c.t, []string{l, "G1", "G2"}, "innerthrow")}}}, rec}}, true
+	case 3:
+		// a G operator that does not throw itself: it only pushes and pops a handler while the
+		// recovery expression runs
+		rec, _ := c.recExpr()
+		a, _ := c.recExpr()
+		return &Expr{K: KRecover, Labels: []string{g()}, Sub: []*Expr{a, rec}}, true
+	}
+	a, _ := c.recExpr()
+	return &Expr{K: KChoice, Sub: []*Expr{{K: KSeq, Sub: []*Expr{c.consuming(), {K: KThrow, Name: g()}}}, a}}, true
 }
 
 func (c *gen) throwChance() int {
@@ -507,15 +547,69 @@ func (c *gen) stateBlock() *Expr {
 	return e
 }
 
+// nestedRecover draws the shape ( ( item* //{li} recI ) //{lo} recO ) where the items throw
+// the outer and the inner label in any order and number, and recO is a rich recovery
+// expression: a throw handled by the operator that is not the innermost one in force, whose
+// recovery expression throws again or pushes handlers of its own, followed by more throws.
+func (c *gen) nestedRecover() (*Expr, bool) {
+	lo := Pick(c.t, []string{"F1", "F2", "F3"}, "outerlabel")
+	var li string
+	for li == "" || li == lo {
+		li = Pick(c.t, []string{"F1", "F2", "F3", "G1", "G2", "G1"}, "innerlabel")
+	}
+	item := func(label string) *Expr {
+		var e *Expr = &Expr{K: KSeq, Sub: []*Expr{c.consuming(), {K: KThrow, Name: label}}}
+		if c.cfg.Code && c.chance(40, "itemaction") {
+			e = &Expr{K: KAction, ID: c.id(), Sub: []*Expr{e}}
+		}
+		return e
+	}
+	alts := []*Expr{item(lo), item(li)}
+	if c.chance(40, "thirditem") {
+		alts = append(alts, item(Pick(c.t, []string{lo, li, "G2", "F3"}, "thirdlabel")))
+	}
+	alts = append(alts, c.consuming())
+	if c.chance(50, "itemorder") {
+		alts[0], alts[1] = alts[1], alts[0]
+	}
+	body := &Expr{K: KStar, Sub: []*Expr{{K: KChoice, Sub: alts}}}
+	saveC, saveT := c.noCode, c.noThrow
+	c.noCode, c.noThrow = true, true
+	var recI *Expr
+	if li[0] == 'F' && c.chance(40, "innerrich") {
+		recI, _ = c.richRec()
+	} else {
+		recI, _ = c.recExpr()
+	}
+	prefer := ""
+	if li[0] == 'G' {
+		prefer = li
+	}
+	recO, _ := c.richRecFor(prefer)
+	c.noCode, c.noThrow = saveC, saveT
+	inner := &Expr{K: KRecover, Labels: []string{li}, Sub: []*Expr{body, recI}}
+	outer := &Expr{K: KRecover, Labels: []string{lo}, Sub: []*Expr{inner, recO}}
+	if c.chance(50, "nestedtail") {
+		return &Expr{K: KSeq, Sub: []*Expr{outer, c.consuming()}}, false
+	}
+	return outer, true
+}
+
 func (c *gen) recover(depth int, guarded bool) (*Expr, bool) {
 	nl := c.intn(1, 2, "nflabels")
 	labels := []string{}
+	tierG := c.chance(25, "goperator")
 	if c.forceLabel != "" {
+		tierG = c.forceLabel[0] == 'G'
 		labels = append(labels, c.forceLabel)
 		c.forceLabel = ""
 	}
+	pool := []string{"F1", "F2", "F3"}
+	if tierG {
+		pool = []string{"G1", "G2"}
+	}
 	for i := 0; i < nl; i++ {
-		l := Pick(c.t, []string{"F1", "F2", "F3"}, "hlabel")
+		l := Pick(c.t, pool, "hlabel")
 		dup := false
 		for _, x := range labels {
 			dup = dup || x == l
@@ -543,7 +637,12 @@ func (c *gen) recover(depth int, guarded bool) (*Expr, bool) {
 	c.handled = saveH
 	var rec *Expr
 	rn := false
-	if len(c.recRules) > 0 && c.chance(50, "recrule") {
+	if !tierG && c.chance(30, "richrecovery") {
+		saveC, saveT := c.noCode, c.noThrow
+		c.noCode, c.noThrow = true, true
+		rec, rn = c.richRec()
+		c.noCode, c.noThrow = saveC, saveT
+	} else if len(c.recRules) > 0 && c.chance(50, "recrule") {
 		n := Pick(c.t, c.recRules, "recname")
 		rec = &Expr{K: KRef, Name: n}
 		rn = c.nullable[n]
@@ -646,6 +745,8 @@ func GrammarGen(cfg GenConfig) *rapid.Generator[*Grammar] {
 					e = &Expr{K: KClass, Chars: []rune{c.rune_(), c.rune_(), c.rune_()}}
 				}
 				c.classLeaves = append(c.classLeaves, c.names[i])
+			} else if cfg.Throw && i < len(entries) && c.chance(30, "nestedrecover") {
+				e, n = c.nestedRecover()
 			} else if cfg.Code && c.chance(60, "ruleaction") {
 				e, n = c.seq(1, false)
 				e = &Expr{K: KAction, ID: c.id(), Sub: []*Expr{e}}
